@@ -12,7 +12,8 @@ RULE = ('an algorithm configuration (Sweeping, Random(seed), Deduping over them 
         'regularized_evolution, hill_climb, nsga2 with tuple rewards, neat, Deduping over evolution with/without '
         'auto_reward_fn), a finite space, a run length N<=16 and a pipeline depth w<=4 (the feedback of proposal i arrives '
         'after proposal i+w); for EVERY crash point k in 0..N a fresh instance is set up on the same space and recovers the '
-        'first k history records (DNA + metadata + reward or None, persisted through to_json_str/from_json_str) and is '
+        'first k history records (DNA + metadata + reward or None, persisted through to_json_str/from_json_str; the last '
+        '0..3 measured trials optionally persisted as they were when proposed, their reward having arrived later) and is '
         'compared with an uninterrupted run stopped at k: proposal / feedback counts, population with fitness, counts of the '
         'wrapped algorithm, de-duplication memory; for sweeping / seeded random / de-duplication over them also the next 4 '
         'proposals. Non-trivial: 0<k<N with >=1 in-flight proposal at the crash point, or a wrapped configuration')
@@ -39,6 +40,7 @@ def strategy(tier):
       'shape': genospec.shape_strategy(max_depth=1, floats=False, names=False, max_cands=4, max_k=2, max_elems=3),
       'N': st.integers(0, 14),
       'w': st.integers(0, 4),
+      'late': st.sampled_from([0, 0, 0, 1, 2, 3]),
   })
 
 
@@ -110,7 +112,7 @@ def run_until(case, spec, k, multi):
   pending = []
   for _ in range(k):
     d = algo.propose()
-    rec = [d, None]
+    rec = [d, None, pg.to_json_str(d)]
     history.append(rec)
     pending.append(rec)
     if len(pending) > w:
@@ -139,7 +141,7 @@ class _Stepper:
   def advance_to(self, k):
     while self.k < k:
       d = self.algo.propose()
-      rec = [d, None]
+      rec = [d, None, pg.to_json_str(d)]
       self.history.append(rec)
       self.pending.append(rec)
       if len(self.pending) > self.w:
@@ -196,11 +198,21 @@ def execute(case):
                          exc=type(e).__name__, **sig)
     if (0 < k < N and in_flight >= 1) or wrapped:
       res.nontrivial = True
-    persisted = [(pg.to_json_str(d), r) for d, r in history]
+    persisted = [(pg.to_json_str(d), r) for d, r, _ in history]
+    # the reward of the last `late` measured trials arrived, but their DNA was persisted when it was proposed
+    # (the controller stopped before it recorded the feedback): recover has to account for them itself
+    late = case.get('late', 0)
+    if isinstance(late, bool) or not isinstance(late, int) or not 0 <= late <= 4:
+      raise core.InvalidCase(case)
+    rewarded = [i for i, (_, r, _) in enumerate(history) if r is not None]
+    for i in rewarded[len(rewarded) - late:] if late else []:
+      persisted[i] = (history[i][2], history[i][1])
+    if late and rewarded:
+      res.label('late-feedback')
     b = make_algo(case)
     b.setup(spec)
     what = 'k=%d N=%d w=%d in_flight=%d history=%r; case=%r' % (
-        k, N, w, in_flight, [(d.to_numbers(), r) for d, r in history], {x: y for x, y in case.items() if x != 'shape'})
+        k, N, w, in_flight, [(d.to_numbers(), r) for d, r, _ in history], {x: y for x, y in case.items() if x != 'shape'})
     try:
       b.recover([(pg.from_json_str(s), r) for s, r in persisted])
     except RecursionError:
